@@ -86,7 +86,10 @@ def on_or_outside_boundary(name: str, v: Any) -> bool:
         return True
     edges = {"lr": [0.0], "beta1": [0.0, 1.0], "beta2": [0.0, 1.0], "beta3": [-1.0, 0.0, 1.0], "epsilon": [0.0], "momentum": [0.0, 1.0], "dampening": [0.0, 1.0],
              "weight_decay": [0.0], "max_preconditioner_dim": [1], "precondition_frequency": [1], "start_preconditioning_step": [-1], "inv_root_override": [0]}[name]
-    return any(abs(v - e) <= 1e-9 or v < min(edges) or v > max(edges + [1]) for e in edges) if not isinstance(v, list) else True
+    try:
+        return any(abs(v - e) <= 1e-9 or v < min(edges) or v > max(edges + [1]) for e in edges)
+    except (TypeError, OverflowError):
+        return True
 
 
 def oracle(case: dict) -> Outcome:
@@ -96,8 +99,9 @@ def oracle(case: dict) -> Outcome:
     k = dict(BASES[case["base"]])
     changed = []
     for name, idx in case["set"]:
-        k[name] = TABLES[name][idx]
-        if TABLES[name][idx] != BASES[case["base"]][name] or TABLES[name][idx] != TABLES[name][idx]:
+        val = idx["v"] if isinstance(idx, dict) else TABLES[name][idx]
+        k[name] = val
+        if val != BASES[case["base"]][name] or val != val:
             changed.append(name)
     out.key = {"k": repr(k)}
     out.nontrivial = any(on_or_outside_boundary(n, k[n]) for n in changed)
@@ -177,7 +181,18 @@ def strategy_random():
     @st.composite
     def case(draw: Any) -> dict:
         names = draw(st.lists(st.sampled_from(NAMES), min_size=1, max_size=6, unique=True))
-        return {"base": draw(st.integers(0, len(BASES) - 1)), "set": [[nm, draw(st.integers(0, len(TABLES[nm]) - 1))] for nm in names]}
+        floats = st.one_of(st.floats(allow_nan=True, allow_infinity=True), st.floats(-2, 2), st.floats(0, 1), st.sampled_from([0.0, 1.0, -1.0, 0.5]))
+        ints = st.one_of(st.integers(-3, 12), st.integers(-(10**6), 10**6))
+
+        def value(nm: str):
+            if isinstance(TABLES[nm][0], float):
+                return floats.map(lambda v: {"v": v})
+            if nm == "inv_root_override":
+                return st.one_of(ints, st.lists(st.integers(-2, 6), max_size=5)).map(lambda v: {"v": v})
+            return ints.map(lambda v: {"v": v})
+
+        return {"base": draw(st.integers(0, len(BASES) - 1)),
+                "set": [[nm, draw(st.one_of(st.integers(0, len(TABLES[nm]) - 1), value(nm)))] for nm in names]}
 
     return case()
 
